@@ -26,7 +26,9 @@ func find(t *rt.Thread, c *rt.GoCont) (rt.Cont, error) {
 		ptn, err = c.StringArg(1)
 	}
 	if err == nil && c.NArgs() >= 3 {
-		init, err = c.IntArg(2)
+		if !c.Arg(2).IsNil() {
+			init, err = c.IntArg(2)
+		}
 		if err == nil && c.NArgs() >= 4 {
 			plain = rt.Truth(c.Arg(3))
 		}
